@@ -86,12 +86,16 @@ def stepAnswer (minC now : Int) (m : Int) (rr : RR) : Int :=
   let m := if getTTL rr < m then getTTL rr else m
   stepSig minC now m rr
 
+/-- the `if isNegative { if soa, ok := rr.(*dns.SOA) ... }` part of the Authority loop. -/
+def stepSoa (neg : Bool) (m : Int) (rr : RR) : Int :=
+  match neg, rr.kind with
+  | true, .soa mn => if (mn : Int) * S < m then (mn : Int) * S else m
+  | _, _ => m
+
 /-- body of the Authority loop (`isNegative` adds SOA.Minttl). -/
 def stepNs (minC now : Int) (neg : Bool) (m : Int) (rr : RR) : Int :=
   let m := if getTTL rr < m then getTTL rr else m
-  let m := match neg, rr.kind with
-    | true, .soa mn => if (mn : Int) * S < m then (mn : Int) * S else m
-    | _, _ => m
+  let m := stepSoa neg m rr
   stepSig minC now m rr
 
 /-- body of the Additional loop (OPT skipped). -/
